@@ -644,6 +644,27 @@ def run(rep, tier):
         'is assembled over all text and CDATA children in document order' if not firsts and not regroup else
         ('is the FIRST text node at %d site(s): <data id="x"> <!-- c --> { 1, 2, 3 } </data> gets no content, a CDATA-only <data> NULL' % len(firsts) if firsts else '') +
         (' text nodes and CDATA nodes are collected in two passes and concatenated: <script>a <![CDATA[ b ]]> c</script> runs as a c b' if regroup else '')))
+    # ---- R04.24 an entry of a sentinel-terminated table differs from the sentinel
+    rep.rule('R04.24', 'a table entry is not its own terminator: the donedata table is searched up to an entry whose content, contentexpr and params are all NULL; for a <donedata> with a <content> child the writer emits a non-NULL content or contentexpr (NULL for the content text only when the expr form is there)')
+    dd = None
+    for f_ in fb.funcs.values():
+        if f_.q.startswith('uscxml::ChartToC::') and any(y['k'] == 'StringLiteral' and 'static const uscxml_elem_donedata ' in (y.get('str') or '') for y in f_.walk()):
+            dd = f_
+    if dd is None:
+        raise AnalysisBroken('the writer of the _elem_donedatas table was not found')
+    dd_line = min(y['loc'][1] for y in dd.walk() if y['k'] == 'StringLiteral' and 'static const uscxml_elem_donedata ' in (y.get('str') or ''))
+    conds = []
+    for n_ in dd.walk():
+        if n_['k'] == 'ConditionalOperator' and n_['loc'][1] > dd_line and any(y['k'] == 'StringLiteral' and (y.get('str') or '').strip() == 'NULL,' for y in sub(n_)) and any(
+                a_['k'] == 'IfStmt' and any(y.get('ref', {}).get('name') == 'contents' for y in sub(a_['c'][0])) and any(z is n_ for z in sub(a_['c'][1])) for a_ in dd.ancestors(n_)):
+            conds.append(n_)
+    rep.minimum('R04.24', len(conds), 2, 'NULL-able fields written for a <donedata> with <content>')
+    def mentions_expr(c_):
+        return any(y.get('ref', {}).get('name') == 'kXMLCharExpr' for y in sub(c_))
+    text_fields = [c_ for c_ in conds if not mentions_expr(c_['c'][0]) ]
+    rep.check(not text_fields, 'R04.24', 'donedata table|entry vs terminator', locstr(text_fields[0]) if text_fields else dd.where(), 'for a <donedata> with a <content> child %s' % (
+        'the content text is NULL only when the expr form is written' if not text_fields else
+        'the content text is NULL whenever it is empty, independently of the expr field: <donedata><content/></donedata> gives { src, NULL, NULL, NULL }, the terminator - the donedata of every later final is never found'))
     # ---- R04.21 names of emitted functions are C identifiers
     rep.rule('R04.21', 'the emitted file compiles for every id: where ChartToC builds the name of an emitted function from DOMUtils::idForNode, the id passes through an injective mapping onto C identifiers (idForNode replaces only `.` and `,` and uses the qualified tag name for elements without id)')
     raw_ids = []
